@@ -645,6 +645,12 @@ func (w *World) CheckPendingGlobal(inst *Instance, pend map[wire.Hash]*wire.MsgT
 	}
 	for h, why := range expect {
 		if _, ok := pend[h]; !ok {
+			if tx := w.Node.LookupTx(h); tx != nil && strings.HasPrefix(why, "announced again") {
+				if rival, loser, found := lostToBlockRival(w, tx); found {
+					w.Violate(class+".readmitted-transaction-ignored", "%s", readmittedDetail(h, loser, rival))
+					return
+				}
+			}
 			w.Violate(class+".pending-missing", "transaction %s must be in the pending set (%s) but is not", h, why)
 			return
 		}
@@ -1049,4 +1055,64 @@ func checkRestore(w *World, src *Instance, t *Tape, class string) {
 		}
 	}
 	w.Stat("check.restore")
+}
+
+// lostToBlockRival reports whether tx, or an ancestor of it up to three
+// generations back, has an input that another transaction contained in a block
+// which is NOT on the best chain now spends too. A wallet that handled that
+// block while the ancestor was pending evicted the ancestor and its descendants
+// from the pending set (correctly); after the reorganisation that dropped the
+// block they are valid again.
+//
+//go:norace
+func lostToBlockRival(w *World, tx *wire.MsgTx) (rival, loser wire.Hash, found bool) {
+	type sp struct {
+		tx  wire.Hash
+		blk wire.Hash
+	}
+	spenders := map[wire.OutPoint][]sp{}
+	w.Node.mu.Lock()
+	onBest := map[wire.Hash]bool{}
+	for _, b := range w.Node.best {
+		onBest[b.Hash] = true
+	}
+	var stale []*BlockRec
+	for _, b := range w.Node.all {
+		if !onBest[b.Hash] {
+			stale = append(stale, b)
+		}
+	}
+	w.Node.mu.Unlock()
+	sort.Slice(stale, func(i, j int) bool { return stale[i].Hash.String() < stale[j].Hash.String() })
+	for _, b := range stale {
+		for _, m := range b.Msg.Transactions[1:] {
+			for _, in := range m.TxIn {
+				spenders[in.PreviousOutPoint] = append(spenders[in.PreviousOutPoint], sp{m.TxHash(), b.Hash})
+			}
+		}
+	}
+	gen := []*wire.MsgTx{tx}
+	for depth := 0; depth <= 3 && len(gen) > 0; depth++ {
+		var next []*wire.MsgTx
+		for _, m := range gen {
+			mh := m.TxHash()
+			for _, in := range m.TxIn {
+				for _, s := range spenders[in.PreviousOutPoint] {
+					if s.tx != mh {
+						return s.tx, mh, true
+					}
+				}
+				if prev := w.Node.LookupTx(in.PreviousOutPoint.Hash); prev != nil && !prev.IsCoinBaseTx() {
+					next = append(next, prev)
+				}
+			}
+		}
+		gen = next
+	}
+	return rival, loser, false
+}
+
+//go:norace
+func readmittedDetail(h, loser, rival wire.Hash) string {
+	return fmt.Sprintf("transaction %s, announced again with all parents confirmed and no rival, is not in the pending set: it (or its ancestor %s) lost to %s in a block that was reorganised away later, and the handler's in-memory set of known hashes still holds it", h, loser, rival)
 }
